@@ -7,6 +7,8 @@
 From Coq Require Import ZArith List Bool Lia Permutation.
 From CSS Require Import Base.PyList Tree.Model Tree.Basics Tree.Valid Tree.PruneProofs
   Tree.IterProofs Tree.RandomProofs Tree.DfsProofs Tree.SpecProofs Tree.FuelProofs Tree.MinProofs.
+From CSS Require Gen.TreePruneRuleTest Gen.TreeIterativePruneRuleTest Gen.TreeIterativeFinderRuleTest.
+From CSS Require Import Tree.GenBridge.
 Import ListNotations.
 Open Scope Z_scope.
 
@@ -495,6 +497,47 @@ Example C05_smallest_minimum_ruledb_value :
   get_smallest_node aq_pd 0 [aq_run] = Some (Node 0 [Node 2 [Node 1 []]]).
 Proof. split; vm_compute; reflexivity. Qed.
 
+(* ================= the per-rule tests are the source's (translator) =================
+   prune removes a rule exactly when the source's test
+   `any(x not in rdict for x in rule)` holds, and iterative_prune / the iterative
+   finder accept a rule exactly when `all(x in verified_labels for x in rule)`
+   holds (Gen/TreePruneRuleTest.v, Gen/TreeIterativePruneRuleTest.v,
+   re-translated from tree_searcher.py on every run). *)
+Theorem C05_prune_test_is_source : forall k d ch r,
+  prune_rule k (d, ch) r =
+  let '(d1, ch1) := if TreePruneRuleTest.prune_rule_test d r
+                    then (upd d k (remove_rule r), true) else (d, ch) in
+  match get d1 k with
+  | Some [] => (del d1 k, ch1)
+  | _ => (d1, ch1)
+  end.
+Proof. exact prune_rule_is_source. Qed.
+
+Theorem C05_iterative_test_is_source : forall root k s r,
+  iter_rule root k s r =
+  if TreeIterativePruneRuleTest.iterative_prune_rule_test (iv s) r
+  then
+    let '(ts, e) := match create_tree root (itrees s) k r with
+                    | Some ts => (ts, ierr s)
+                    | None => (itrees s, true)
+                    end in
+    mkI (set_add k (iv s)) (upd (ird s) k (remove_rule r)) (add_rule (inew s) k r) ts e true
+  else s.
+Proof. exact iter_rule_is_source. Qed.
+
+(* the finder's copy of the loop (iterative_proof_tree_finder) uses the same test *)
+Theorem C05_finder_test_is_source : forall root k s r,
+  iter_rule root k s r =
+  if TreeIterativeFinderRuleTest.iterative_finder_rule_test (iv s) r
+  then
+    let '(ts, e) := match create_tree root (itrees s) k r with
+                    | Some ts => (ts, ierr s)
+                    | None => (itrees s, true)
+                    end in
+    mkI (set_add k (iv s)) (upd (ird s) k (remove_rule r)) (add_rule (inew s) k r) ts e true
+  else s.
+Proof. exact iter_rule_is_source_finder. Qed.
+
 Print Assumptions C05_prune_gfp.
 Print Assumptions C05_prune_terminates.
 Print Assumptions C05_prune_refuted_on_empty_ruleset.
@@ -516,3 +559,6 @@ Print Assumptions C05_smallest_defined.
 Print Assumptions C05_smallest_minimum.
 Print Assumptions C05_smallest_minimum_ruledb.
 Print Assumptions C05_bfs_generator_refuted.
+Print Assumptions C05_prune_test_is_source.
+Print Assumptions C05_iterative_test_is_source.
+Print Assumptions C05_finder_test_is_source.
